@@ -37,7 +37,7 @@ def _vspec(rng, g, kind=None, elem=None):
             vs_ = {'k': 'seq', 'c': 'faulty-' + rng.choice(['getitem', 'getitem', 'seq', 'seq', 'array', 'len']), 'len': rng.choice(['n', 'n', 'n', 1]), 'e': elem, 'base': base, 'at': rng.choice([None, 0, 1, 2, 5, -1])}
             if rng.random() < 0.4:
                 # a data source backed by the very object it is being assigned to: it reads from it while it is being read
-                vs_['cb'] = rng.choice(['copy', 'values', 'frame', 'read', 'read', 'eval', 'reindex'])
+                vs_['cb'] = rng.choice(['copy', 'values', 'frame', 'read', 'read', 'eval', 'reindex', 'w_scalar', 'w_scalar', 'w_cell', 'w_cell', 'w_add', 'w_add', 'w_same', 'w_same'])
                 if rng.random() < 0.6:
                     vs_['at'] = None
             return vs_
@@ -422,7 +422,12 @@ def generate(rng, idx, tier, variant):
             step = rng.choice([None, None, 1, 2, 3])
             r = rng.random()
             g['base'] += 7
-            if r < 0.5:
+            if r < 0.08 and isinstance(a, (int, type(None))) and isinstance(b, (int, type(None))) and dt == 'float':
+                # a lazily read source of the right length that, while it is being read, writes (by label) another
+                # period of the very variable the slice is being assigned to
+                cnt = len(RC.resolve_slice(list(range(n)), a, b, step))
+                vs = {'k': 'seq', 'c': 'faulty-' + rng.choice(['getitem', 'seq', 'array']), 'len': cnt, 'e': dt, 'base': g['base'], 'at': None, 'cb': rng.choice(['w_same', 'w_same', 'w_cell', 'read'])}
+            elif r < 0.5:
                 vs = {'k': 'scalar', 'e': dt, 'base': g['base']}
             elif r < 0.85 and isinstance(a, (int, type(None))) and isinstance(b, (int, type(None))):
                 cnt = len(RC.resolve_slice(list(range(n)), a, b, step))
@@ -923,7 +928,30 @@ def execute(schedule, ctx):
             ctx.probe('faulty-operand:' + v_.mode + (':working' if v_.at is None else ''))
             if vs.get('cb'):
                 v_.cb, v_.where = vs['cb'], cur
+                if vs['cb'].startswith('w_'):
+                    prepare_writing_callback(v_)
         return v_
+
+    def prepare_writing_callback(v_):
+        """The operand will write to the object on its own account while it is being read: pick a variable the outer
+        operation does not name, keep a copy of the object as it is now (what a failed outer operation must leave behind
+        is this copy plus the callback's own writes)."""
+        x_ = cur['obj']
+        pty = cur['party']
+        op_ = cur['op']
+        busy = {op_.get('name')} | {it[0] for it in op_.get('items', [])}
+        cands = [nm_ for nm_ in pty.order if nm_ not in busy and nm_ in pty.ref and pty.ref[nm_].dtype.kind == 'f' and nm_ not in ('status', 'iterations')]
+        cur['serial'] = cur.get('serial', 0) + 1
+        cur['cbvar'] = cands[cur['serial'] % len(cands)] if cands else None
+        cur['via'] = 'item' if cur['serial'] % 2 else 'attr'
+        cur['cblabel'] = None
+        if pty.unique and pty.n:
+            j_ = cur['serial'] % pty.n
+            cur['cblabel'] = (j_, pty.labels[j_])
+        try:
+            cur['shadow'] = x_.copy()
+        except Exception:
+            v_.cb = None  # (an object that cannot be copied: no shadow to judge a failed outer operation against)
 
     cur = {'obj': None}
 
@@ -942,7 +970,7 @@ def execute(schedule, ctx):
             continue
         party = parties[i]
         x = party.obj
-        cur['obj'] = x
+        cur.update(obj=x, party=party, op=op, same=None, shadow=None, pending_new=None, pending_nm=None)
         d = x.__dict__
         n = party.n
         kind = op['op']
@@ -950,12 +978,57 @@ def execute(schedule, ctx):
         outcome = 'ok'
         exc = None
 
+        def apply_effects():
+            """Writes a re-entrant operand made on its own account: each is a complete operation (it must be visible
+            now), and the reference and the 'as it was' observation move along with it."""
+            sh = cur.get('shadow')
+            for v_ in made:
+                for eff in v_.effects[v_.applied:]:
+                    ctx.fault('operand-writes-to-the-object')
+                    ctx.probe('re-entrant-write:' + eff[0])
+                    if eff[0] == 'scalar':
+                        _, nm_, val_ = eff
+                        arr_ = d.get('_' + nm_)
+                        ctx.check('C09', 're-entrant-write/whole-series-kept', isinstance(arr_, np.ndarray) and arr_.shape == (n,) and bool(np.all(arr_ == val_)), {'name': nm_, 'outer': kind})
+                        if nm_ in party.ref:
+                            party.ref[nm_] = np.full(n, val_, dtype=party.ref[nm_].dtype)
+                        if sh is not None:
+                            sh.__dict__['_' + nm_][:] = val_
+                    elif eff[0] == 'cell':
+                        _, nm_, pos_, val_ = eff
+                        arr_ = d.get('_' + nm_)
+                        ctx.check('C10', 're-entrant-write/labelled-cell-kept', isinstance(arr_, np.ndarray) and arr_.shape == (n,) and float(arr_[pos_]) == val_, {'name': nm_, 'position': pos_, 'outer': kind, 'got': canon(arr_.tolist()) if isinstance(arr_, np.ndarray) else None})
+                        if nm_ in party.ref:
+                            party.ref[nm_] = party.ref[nm_].copy()
+                            party.ref[nm_][pos_] = val_
+                        if cur.get('pending_new') is not None and cur.get('pending_nm') == nm_:
+                            cur['pending_new'][pos_] = val_
+                        if sh is not None:
+                            sh.__dict__['_' + nm_][pos_] = val_
+                    elif eff[0] == 'add':
+                        nm_ = eff[1]
+                        arr_ = d.get('_' + nm_)
+                        ok_ = nm_ in d['index'] and isinstance(arr_, np.ndarray) and arr_.shape == (n,) and bool(np.all(arr_ == np.full(n, 0.5).astype(arr_.dtype))) and ('names' not in d or nm_ in d['names'])
+                        ctx.check('C09', 're-entrant-write/added-variable-kept', ok_, {'name': nm_, 'index': list(d['index']), 'names': list(d.get('names', [])), 'outer': kind})
+                        if nm_ not in party.order:
+                            party.order.append(nm_)
+                            # (a model built with dtype= gives the new variable that dtype)
+                            party.ref[nm_] = arr_.copy() if (ok_ and isinstance(arr_, np.ndarray)) else np.full(n, 0.5)
+                            party.dtypes[nm_] = party.ref[nm_].dtype
+                        if sh is not None and nm_ not in sh.__dict__['index']:
+                            sh.add_variable(nm_, 0.5)
+                    if sh is not None:
+                        before[i] = O.obs(sh)
+                v_.applied = len(v_.effects)
+
         def attempt(fn):
             try:
                 fn()
                 return None
             except Exception as e:  # the operation's own failure mode is part of the spec
                 return e
+            finally:
+                apply_effects()
 
         def settle(cls_, new, nm, prop, sig, fn):
             """Run fn against the object under expectation (cls_, new) for variable nm; update / resync the reference."""
@@ -1146,6 +1219,12 @@ def execute(schedule, ctx):
                     cls_, new = RC.expect_positions(party.ref[nm], RC.positional_slice(party.labels, a, b, step), v)
                     if not pos and cls_ == 'fail':
                         cls_ = 'may'
+                    free_ = [j_ for j_ in range(n) if j_ not in set(pos)]
+                    if free_ and party.unique and party.ref[nm].dtype.kind == 'f':
+                        # (a re-entrant operand may write, by label, a period of this very variable that the slice does not address)
+                        j_ = free_[(ctx.step + len(pos)) % len(free_)] if not (step and step > 1 and len(pos) > 1) else next((q_ for q_ in free_ if pos[0] < q_ < pos[-1]), free_[0])
+                        cur['same'] = (nm, j_, party.labels[j_])
+                        cur['pending_new'], cur['pending_nm'] = new, nm
                     outcome = settle(cls_, new, nm, 'C10', f'slice-set/span={sty}/{shape}', lambda: x.__setitem__(key, v))
                     if outcome in ('ok', 'may-ok'):
                         read_paths(party, nm, ctx, positions_for_read(party))
